@@ -11,6 +11,9 @@ def run(tier, seed):
     _, rep = coscommon.mc_and_replay(v, wd, "c17", k, workers=12 if tier == "quick" else 15)
     _, repb = coscommon.mc_and_replay(v, wd, "c17b", 3 if tier == "quick" else 5, workers=12)
     vlib.require(rep["nontrivial"] > 10, "replay too small")
+    # random lists of 4..12 rules over the whole space of valid cosmetic rules (TLC Randomization, seeded)
+    _, rep_r = coscommon.mc_and_replay(v, wd, "rand", 300 if tier == "quick" else 3000, workers=12, extra=["-seed", str(seed)])
+    vlib.require(rep_r["evaluations"] > 20000, "random cosmetic universe too small")
     return v.finish("model_checking", "lists of <= %d cosmetic rules" % k, exhaustive=True)
 
 
